@@ -125,3 +125,8 @@ def run(ctx):
     if mism:
         log("note: %d steered replays ended with other results than the generator's behaviour; their traces are "
             "behaviours of the spec (the code's goroutines choose), not violations" % mism)
+
+    # ---- the same property on the real TraditionalDnsConn (deadline arming / connection death under PipelineTransport):
+    # spec/PipeConnArm.tla resp. LazyPipe.tla, harness/drv_pipeconn, drv_pipeline (checks/pipeconn_c08.py)
+    import pipeconn_c08
+    pipeconn_c08.run_extra(ctx)
